@@ -52,7 +52,17 @@ impl DaySelector {
 impl Display for DaySelector {
     fn fmt(&self, f: &mut std::fmt::Formatter<'_>) -> std::fmt::Result {
         if !(self.year.is_empty() && self.monthday.is_empty() && self.week.is_empty()) {
-            write_selector(f, &self.year)?;
+            match self.year.as_slice() {
+                // A single year directly followed by a month would be parsed as the year of the
+                // first monthday range only (eg. "2020Jan-Mar,Aug-Dec" or "2020Dec25-Jan05").
+                [YearRange { range, step: 1 }]
+                    if range.start() == range.end() && !self.monthday.is_empty() =>
+                {
+                    write!(f, "{}-{}", range.start().deref(), range.end().deref())?;
+                }
+                _ => write_selector(f, &self.year)?,
+            }
+
             write_selector(f, &self.monthday)?;
 
             if !self.week.is_empty() {
